@@ -1,7 +1,7 @@
 (* C07 — APDU fixed headers carry every field of all eight PDU types faithfully.
    Property theorems only; proofs live in Bac.ApciHdr / ApciDec / ApciTypes (header codec model
    Bac.Apci) and Bac.ApciFacts (the AST-translated code tables BacGen.ApduFns). *)
-From Bac Require Import Base PyRt Apci ApciHdr ApciDec ApciTypes ApciFacts.
+From Bac Require Import Base PyRt Apci ApciHdr ApciDec ApciTypes ApciFacts ApciSession ApciSessionFacts.
 From BacGen Require Import ApduFns.
 Open Scope N_scope.
 
@@ -152,6 +152,38 @@ Theorem C07_reencode_stable : forall bs a r, bytes_ok bs = true -> dec_apci bs =
 Proof. exact reencode_stable. Qed.
 Print Assumptions C07_reencode_stable.
 
+(* ---- object histories (model Bac.ApciSession: a store of APDU objects; decode into fresh or used
+   objects, in-place appends to pduData, objects used as encode targets, typed classes taking a
+   decoded APDU, re-encoding).  Decoding is a function of the octets fed, not of the past. *)
+
+(* whatever ran before on whatever objects: decoding into a not yet used object observes dec_apci bs *)
+Theorem C07_decode_history_free : forall st o bs, fst (lookup st o) = apci_none ->
+  snd (step st (OpDecode o bs)) = framed (canon_dec (dec_apci bs)).
+Proof. exact decode_fresh_history_free. Qed.
+Print Assumptions C07_decode_history_free.
+
+(* into a used object as well: the payload stored is the input minus its 2..6 header octets *)
+Theorem C07_decode_payload_from_octets : forall st o bs a r,
+  dec_into (fst (lookup st o)) bs = Ok (a, r) ->
+  lookup (fst (step st (OpDecode o bs))) o = (a, r) /\
+  exists hd, bs = hd ++ r /\ (2 <= length hd <= 6)%nat.
+Proof. exact decode_payload_from_octets. Qed.
+Print Assumptions C07_decode_payload_from_octets.
+
+(* an object with arbitrary stale attributes: decoding header + payload into it yields the payload
+   fed and attributes that re-encode to exactly the octets fed *)
+Theorem C07_reused_object_roundtrip : forall old h p, wf_hdr h = true ->
+  dec_into old (spec20_1 h ++ p) = Ok (overlay old (to_apci h), p) /\
+  enc_apdu (overlay old (to_apci h)) p = Ok (spec20_1 h ++ p).
+Proof. exact reused_object_roundtrip. Qed.
+Print Assumptions C07_reused_object_roundtrip.
+
+(* no operation changes an object it does not name (in-place appends stay where they were made) *)
+Theorem C07_ops_touch_only_named_objects : forall st x o', ~ In o' (touched x) ->
+  lookup (fst (step st x)) o' = lookup st o'.
+Proof. exact step_frame. Qed.
+Print Assumptions C07_ops_touch_only_named_objects.
+
 (* ---- the two code tables (generated text of BacGen.ApduFns), for every integer *)
 Open Scope Z_scope.
 
@@ -242,6 +274,11 @@ Example C07_decode_examples :
   dec_apci [32; 1] = Err DecodingError /\
   dec_apci [32; 1; 2; 3] = Ok (simple_ack_attrs 1 2, [3]).
 Proof. repeat split; vm_compute; reflexivity. Qed.
+Example C07_history_example :       (* reject decoded, scribbled on, another reject decoded: clean *)
+  canon_session [OpDecode 0 [96; 7; 4]%N; OpPut 0 [222; 173]%N; OpDecode 1 [96; 7; 4]%N; OpReencode 1; OpReencode 0]
+  = (framed (canon_dec (dec_apci [96; 7; 4]%N)) ++ framed (canon_dec (dec_apci [96; 7; 4]%N))
+     ++ framed [0; 96; 7; 4] ++ framed [0; 96; 7; 4; 222; 173])%Z.
+Proof. vm_compute. reflexivity. Qed.
 Example C07_table_examples :
   (encode_max_segments_accepted 3 = Ok 1 /\ encode_max_segments_accepted 65 = Ok 7 /\
    encode_max_apdu_length_accepted 1475 = Ok 4 /\ encode_max_apdu_length_accepted 49 = Err ValueErr)%Z.
